@@ -8,7 +8,8 @@ import (
 
 func nextRune(b []byte, i int) (rune, int, error) {
 	ch, size := utf8.DecodeRune(b[i:])
-	if ch == utf8.RuneError {
+	if ch == utf8.RuneError && size <= 1 {
+		// size 3 is a correctly encoded U+FFFD, which is an ordinary character
 		return ch, i, fmt.Errorf("bad unicode rune")
 	}
 	return ch, i + size, nil
